@@ -430,7 +430,19 @@ func c19DelayBody(r *Run) {
 		return []*message.Message{message.NewMessage("o", nil)}, nil
 	})
 	msg := message.NewMessage("m", nil)
+	// a third of the runs: from some failure on the message arrives with a context that has already ended (its deadline
+	// passed, the subscription is closing): a failure all the same, the k-th one gets the k-th delay
+	deadFrom := 0
+	if t.Chance(1, 3) {
+		deadFrom = 1 + t.Int(fails)
+	}
 	for k := 1; k <= fails+1; k++ {
+		if k == deadFrom {
+			cctx, ccancel := context.WithCancel(context.Background())
+			ccancel()
+			msg.SetContext(cctx)
+			r.Fault("message-context-ended")
+		}
 		before := msg.Metadata.Get(delay.DelayedForKey)
 		now := time.Now().UTC()
 		outs, err := h(msg)
